@@ -1129,7 +1129,8 @@ fn canon_wire(bytes: &[u8]) -> String {
 // ---------------------------------------------------------------------------------------------
 // case generation
 
-fn cases_for_all(rng: &mut Rng, thorough: bool) -> Vec<Case> {
+/// all cases; the second component is the number of cases before the call-order permutations start
+fn cases_for_all(rng: &mut Rng, thorough: bool) -> (Vec<Case>, usize) {
     let mut v: Vec<Case> = vec![];
     let filters = [None, Some(false), Some(true)];
     // get
@@ -1473,7 +1474,56 @@ fn cases_for_all(rng: &mut Rng, thorough: bool) -> Vec<Case> {
         Call::Log("m".into()),
         Call::Sync(true),
     ]));
-    v
+    // the ORDER of builder calls: a check made in one call may depend on what an earlier call stored.
+    // For every case above with 2..=4 calls: every other order (2, 3 calls) / a covering set of orders (4 calls).
+    let n_base = v.len();
+    let mut seen: std::collections::HashSet<String> = v.iter().map(|c| format!("{}{:?}", c.op, c.calls)).collect();
+    let base: Vec<Case> = v.iter().filter(|c| (2..=4).contains(&c.calls.len())).cloned().collect();
+    for c in base {
+        let n = c.calls.len();
+        let id: Vec<usize> = (0..n).collect();
+        let mut orders: Vec<Vec<usize>> = vec![];
+        if n <= 3 {
+            // all orders (Heap's algorithm, iterative)
+            let mut idx = id.clone();
+            let mut st = vec![0usize; n];
+            let mut i = 0;
+            while i < n {
+                if st[i] < i {
+                    if i % 2 == 0 {
+                        idx.swap(0, i);
+                    } else {
+                        idx.swap(st[i], i);
+                    }
+                    orders.push(idx.clone());
+                    st[i] += 1;
+                    i = 0;
+                } else {
+                    st[i] = 0;
+                    i += 1;
+                }
+            }
+        } else {
+            // four calls: the rotations, the reversal, and each adjacent transposition (every pair of
+            // calls occurs in both relative orders)
+            for r in 1..n {
+                orders.push((0..n).map(|k| (k + r) % n).collect());
+            }
+            orders.push(id.iter().rev().copied().collect());
+            for k in 0..n - 1 {
+                let mut o = id.clone();
+                o.swap(k, k + 1);
+                orders.push(o);
+            }
+        }
+        for o in orders {
+            let calls: Vec<Call> = o.iter().map(|&k| c.calls[k].clone()).collect();
+            if seen.insert(format!("{}{:?}", c.op, calls)) {
+                v.push(Case::new(c.op, calls));
+            }
+        }
+    }
+    (v, n_base)
 }
 
 /// reduced list for the exhaustive 2^13 sweep of the thorough tier: every operation, every single
@@ -1829,13 +1879,17 @@ pub fn main(opts: &Opts) {
             });
         }
     } else {
-        let all = cases_for_all(&mut rng, opts.thorough());
-        let core = core_cases(&all);
-        for cs in gen_capsets(opts, &mut rng) {
+        let (all, n_base) = cases_for_all(&mut rng, opts.thorough());
+        let core = core_cases(&all[..n_base]);
+        let unpermuted: Vec<Case> = all[..n_base].to_vec();
+        for (k, cs) in gen_capsets(opts, &mut rng).into_iter().enumerate() {
             jobs.push(Job {
                 toks: cs.toks,
                 cases: if cs.core_only {
                     core.clone()
+                } else if opts.thorough() && k % 3 != 0 {
+                    // thorough tier: the call-order permutations on every third capability set (volume)
+                    unpermuted.clone()
                 } else {
                     all.clone()
                 },
